@@ -42,8 +42,10 @@ AddClauses(e) ==
   LET t == e.argt  idx == e.args.idx  mode == e.args.mode  pre == e.pre  post == e.post
       dup == HasName(pre, t.name)
       widens == Widens(pre, t)
-      mayRaise == mode = "error" /\ widens
-  IN [ C12_duplicate_name_rejected |-> dup => e.st = "TierNameExistsError",
+      badopt == mode \notin {"silence", "warning", "error"}
+      mayRaise == (mode = "error" /\ widens) \/ badopt
+  IN [ C12_duplicate_name_rejected |-> (dup /\ ~badopt) => e.st = "TierNameExistsError",
+       C13_invalid_option_value_rejected |-> badopt => (~OkE(e) /\ e.pe),
        C12_add_succeeds |-> (~dup /\ ~mayRaise) => OkE(e),
        C12_add_order_is_list_model |-> (~dup /\ OkE(e)) => Names(post) = ListInsert(Names(pre), idx, t.name),
        C12_add_maps_name_to_tier |-> (~dup /\ OkE(e)) => (HasName(post, t.name) /\ TierNamed(post, t.name) = t /\ SameMapExcept(pre, post, t.name)),
@@ -74,9 +76,11 @@ ReplaceClauses(e) ==
   LET n == e.args.name  t == e.argt  mode == e.args.mode  pre == e.pre  post == e.post
       present == HasName(pre, n)
       clash == present /\ t.name # n /\ HasName(pre, t.name)
-      mayRaise == mode = "error" /\ Widens(pre, t)
+      badopt == mode \notin {"silence", "warning", "error"}
+      mayRaise == (mode = "error" /\ Widens(pre, t)) \/ badopt
   IN [ C12_replace_absent_raises |-> (~present) => ~OkE(e),
-       C12_duplicate_name_rejected |-> clash => e.st = "TierNameExistsError",
+       C13_invalid_option_value_rejected |-> badopt => ~OkE(e),
+       C12_duplicate_name_rejected |-> (clash /\ ~badopt) => e.st = "TierNameExistsError",
        C12_replace_succeeds |-> (present /\ ~clash /\ ~mayRaise) => OkE(e),
        C12_replace_order_is_list_model |-> (present /\ ~clash /\ OkE(e)) =>
             Names(post) = [i \in Idx(pre.tiers) |-> IF pre.tiers[i].name = n THEN t.name ELSE pre.tiers[i].name],
